@@ -611,6 +611,14 @@ func (ro *RedisOutput) setCheckpoint(ctx context.Context, runId string, offset i
 			return err
 		}
 		defer cli.Close()
+		// a snapshot moves the position to its own offset, which may be lower than a position
+		// stored before under this run id (in any db) : the old one must not win the next StartPoint
+		if err := checkpoint.DelCheckpoint(cli, checkpointKv.Key, runId); err != nil {
+			return err
+		}
+		if err := redis.SelectDB(cli, 0); err != nil {
+			return err
+		}
 		return checkpoint.SetCheckpoint(cli, checkpointKv)
 	}, 5, time.Second*2, 0.3)
 	ro.logger.Log(err, "set checkpoint : checkpoint(%v), err(%v)", checkpointKv, err)
